@@ -445,6 +445,12 @@ class _NullGuard(Client):
         if isinstance(test, ast.Compare) and len(test.ops) == 1 and isinstance(test.comparators[0], ast.Constant) \
                 and test.comparators[0].value is None:
             d = dotted(test.left)
+            if isinstance(test.left, ast.Name):
+                from ..flow import Flow
+                fl = getattr(ctx.func.node, "_flow", None)
+                if fl is None:
+                    fl = ctx.func.node._flow = Flow(ctx.func.node)
+                d = dotted(fl.expand(test.left)) or d            # last = self.tail; if last is None: ...
             if d and len(d) == 2 and d[1] in lf.ends:
                 if isinstance(test.ops[0], ast.Is):
                     return ((state | {"none:" + d[1]},), (state | {d[1]},))
